@@ -31,10 +31,10 @@ ADAPTERS_SAME = {
 IS_POS = {'core::result::Result::is_ok', 'core::option::Option::is_some',
           'core::result::Result::is_ok_and', 'core::option::Option::is_some_and'}
 IS_NEG = {'core::result::Result::is_err', 'core::option::Option::is_none'}
-TRY_BRANCH = 'core::ops::Try::branch'
-INTO_FUTURE = 'core::future::IntoFuture::into_future'
+TRY_BRANCH = 'core::ops::try_trait::Try::branch'
+INTO_FUTURE = 'core::future::into_future::IntoFuture::into_future'
 PIN_NEW = {'core::pin::Pin::new_unchecked', 'core::pin::Pin::new'}
-POLL = 'core::future::Future::poll'
+POLL = 'core::future::future::Future::poll'
 
 
 def _norm(name):
@@ -61,28 +61,41 @@ def callee_of(t):
 # through the switch that tests them: `matches!`, `&&`, `||`, `if let ... else`)
 # --------------------------------------------------------------------------
 def _phi_locals(body):
-    """locals all of whose definitions are `X = const <int>` (and at least two
-    definitions, or one definition followed by a switch)."""
+    """locals all of whose definitions are `X = const <int>` or a copy of such a
+    local (and which are not arguments)."""
     cached = getattr(body, '_phi', None)
     if cached is not None:
         return cached
     phi = set()
-    for l, ds in body.defs.items():
-        ok = bool(ds)
-        for (_bb, _i, kind, payload) in ds:
-            if kind != 'assign':
-                ok = False
-                break
-            rv = payload[1]
-            if rv.get('op') != 'use':
-                ok = False
-                break
-            k = rv['a'][0].get('k')
-            if k is None or 'v' not in k:
-                ok = False
-                break
-        if ok and l > body.argc:
-            phi.add(l)
+    changed = True
+    while changed:
+        changed = False
+        for l, ds in body.defs.items():
+            if l in phi or l <= body.argc:
+                continue
+            ok = bool(ds)
+            for (_bb, _i, kind, payload) in ds:
+                if kind != 'assign':
+                    ok = False
+                    break
+                rv = payload[1]
+                if rv.get('op') != 'use':
+                    ok = False
+                    break
+                a = rv['a'][0]
+                k = a.get('k')
+                if k is not None:
+                    if 'v' not in k:
+                        ok = False
+                        break
+                else:
+                    pl = op_place(a)
+                    if pl is None or len(pl) != 1 or pl[0] not in phi:
+                        ok = False
+                        break
+            if ok:
+                phi.add(l)
+                changed = True
     body._phi = phi
     return phi
 
@@ -147,7 +160,15 @@ def reach(body, starts=(0,), cut_edges=(), cut_blocks=(), want_parents=False):
         for s in blk['s']:
             pl = s[0]
             if len(pl) == 1 and pl[0] in phi:
-                envd[pl[0]] = s[1]['a'][0]['k']['v']
+                a = s[1]['a'][0]
+                if 'k' in a:
+                    envd[pl[0]] = a['k']['v']
+                else:
+                    src = op_place(a)[0]
+                    if src in envd:
+                        envd[pl[0]] = envd[src]
+                    else:
+                        envd.pop(pl[0], None)
         t = blk['t']
         succs = None
         if t['t'] == 'switch':
@@ -212,7 +233,7 @@ class Tracked:
 
 
 _BUILTIN_VARIANTS = {
-    'core::ops::ControlFlow': {0: 'Continue', 1: 'Break'},
+    'core::ops::control_flow::ControlFlow': {0: 'Continue', 1: 'Break'},
     'core::result::Result': {0: 'Ok', 1: 'Err'},
     'core::option::Option': {0: 'None', 1: 'Some'},
 }
@@ -365,7 +386,7 @@ def _track_result(facts, body, site, success_variants=None, start_local=None, bo
                     continue
                 tag = tags[a0[0]]
                 if len(dest) != 1:
-                    if dest[0] == 0 and (cn in adapters or cn == 'core::ops::FromResidual::from_residual'):
+                    if dest[0] == 0 and (cn in adapters or cn == 'core::ops::try_trait::FromResidual::from_residual'):
                         tr.returned = True
                     else:
                         tr.passed_to.append((cn, i))
@@ -388,7 +409,7 @@ def _track_result(facts, body, site, success_variants=None, start_local=None, bo
                         setv(dl, ('fut',))
                     elif cn in PIN_NEW:
                         setv(dl, tag)
-                    elif cn == 'core::ops::FromResidual::from_residual':
+                    elif cn == 'core::ops::try_trait::FromResidual::from_residual':
                         tr.returned = True
                     else:
                         tr.passed_to.append((cn, i))
@@ -558,19 +579,19 @@ def bool_return_bbs(body, value):
 # backward slices (P9 / P10)
 # --------------------------------------------------------------------------
 PURE_THROUGH = {
-    'core::ops::Try::branch', 'core::ops::FromResidual::from_residual', 'fmt::Try::into_result',
+    'core::ops::try_trait::Try::branch', 'core::ops::try_trait::FromResidual::from_residual', 'fmt::Try::into_result',
     'core::option::Option::map', 'core::option::Option::and_then', 'core::option::Option::ok_or',
     'core::option::Option::ok_or_else', 'core::option::Option::copied', 'core::option::Option::cloned',
     'core::option::Option::expect', 'core::option::Option::unwrap_or_default',
     'core::result::Result::map_err', 'core::result::Result::map', 'core::result::Result::inspect_err',
     'core::result::Result::ok', 'core::result::Result::unwrap', 'core::result::Result::expect',
     'core::result::Result::and_then', 'core::convert::TryInto::try_into', 'core::convert::TryFrom::try_from',
-    'core::future::IntoFuture::into_future', 'core::pin::Pin::new_unchecked', 'core::future::Future::poll',
+    'core::future::into_future::IntoFuture::into_future', 'core::pin::Pin::new_unchecked', 'core::future::future::Future::poll',
     'core::mem::replace', 'core::mem::take',
-    'core::ops::Deref::deref', 'core::ops::DerefMut::deref_mut', 'core::clone::Clone::clone',
+    'core::ops::deref::Deref::deref', 'core::ops::deref::DerefMut::deref_mut', 'core::clone::Clone::clone',
     'core::convert::Into::into', 'core::convert::From::from', 'core::convert::AsRef::as_ref',
     'core::borrow::Borrow::borrow', 'core::option::Option::as_ref', 'core::option::Option::unwrap',
-    'core::option::Option::as_mut', 'core::num::NonZero::get', 'core::num::NonZero::new',
+    'core::option::Option::as_mut', 'core::num::nonzero::NonZero::get', 'core::num::nonzero::NonZero::new',
 }
 
 
